@@ -28,7 +28,7 @@ def shards(tier):
 
 def gates(c, tier):
     out = [f"no unit of interior class {k}" for k in CLASSES if c.get("unit:" + k, 0) == 0]
-    for k in ("deciding:complete-and-malformed", "outcome:raised", "outcome:all-returned", "call:returned-nothing-while-incomplete"):
+    for k in ("deciding:complete-and-malformed", "outcome:raised", "outcome:all-returned", "call:returned-nothing-while-incomplete", "part:burst-of-many-units"):
         if c.get(k, 0) == 0:
             out.append(f"never observed {k}")
     return out
@@ -150,6 +150,7 @@ def run_case(sess_kind, stream: bytes, cuts):
 
 
 def run_shard(ctx: Ctx, acc: Acc):
+    bursts(ctx, acc)
     n = ctx.scale(50_000, 1_200_000)
     for i in range(n):
         r = ctx.rng(i)
@@ -204,6 +205,42 @@ def run_shard(ctx: Ctx, acc: Acc):
             return
 
 
+def burst_stream(sess_kind, count, seed):
+    """count small complete units in one stream (a burst of search entries / pipelined requests)."""
+    import random
+
+    r = random.Random(seed)
+    out = []
+    for j in range(count):
+        if sess_kind == "client":
+            a = ("SearchResultEntry", 1, ("cn=e%d" % j, (("cn", (b"v",)),) if j % 3 else ()), ()) if j % 5 else ("SearchResultReference", 1, (("ldap://r%d/" % j,),), ())
+        else:
+            a = ("ExtendedRequest", 10 + j, ("1.2.3", None if j % 2 else b"v"), ()) if j % 4 else ("SearchRequest", 10 + j, ("dc=x", 2, 0, 0, 0, False, ("present", "cn"), ()), ())
+        out.append(rfc4511.encode(a))
+    return b"".join(out), r
+
+
+def bursts(ctx, acc):
+    sizes = [200, 255, 256, 257, 300, 512, 513, 1000, 1025, 4097] + ([20000, 65537] if ctx.thorough else [])
+    for si, count in enumerate(sizes):
+        for ki, sess_kind in enumerate(("base", "server", "client")):
+            if (si * 3 + ki) % ctx.nshards != ctx.shard:
+                continue
+            stream, r = burst_stream(sess_kind, count, ctx.seed * 7919 + count)
+            for cuts in ([], [len(stream) // 2], [len(stream) - 1], sorted(r.randrange(1, len(stream)) for _ in range(3))):
+                acc.case()
+                acc.count("part:burst-of-many-units")
+                acc.nontrivial("burst", sess_kind, count, tuple(cuts))
+                vio, obs = run_case(sess_kind, stream, cuts)
+                for k, v in obs.items():
+                    acc.count(k, v)
+                for key, what in vio:
+                    acc.violation(key, what + f" [burst of {count} units in {len(cuts) + 1} deliveries]", {"session": sess_kind, "burst": [count, ctx.seed * 7919 + count], "cuts": list(cuts)})
+
+
 def replay(w):
+    if w.get("burst"):
+        stream, _ = burst_stream(w["session"], w["burst"][0], w["burst"][1])
+        return run_case(w["session"], stream, list(w["cuts"]))[0]
     vio, obs = run_case(w["session"], bytes(w["stream"]), list(w["cuts"]))
     return vio
